@@ -648,28 +648,21 @@ Definition m_no_wedge (es : list pentry) : bool :=
   no_kind 103 es && no_kind 101 es && forallb (fun e => negb (pk e =? 114) || (pa e <=? pb e)) es.
 
 (* ---- verdict assembly ---------------------------------------------------------------------------- *)
-(* the trace up to the call of Pipeline.Stop (label 116, early-stop cases only).  Streams and batchers are replayed on the
-   whole trace (unlock events and Batcher.Stop are part of their models).  The processor model describes the running
-   pipeline: streamer.stop() hands every stream an unlock event, which makes the owner leave its stream at once - also
-   with an event held (processEvent returns on the unlock event before the busy-action check) - and go on with other
-   streams; that is outside Model/Proc.v, whose runs (and the flows / the product built on it) end at the call *)
-Fixpoint before_stop (es : list pentry) : list pentry :=
-  match es with
-  | [] => []
-  | e :: r => if is_k 4 116 e then [] else e :: before_stop r
-  end.
-
-Definition lts_ok (atomic : bool) (c : pcfg) (es0 : list pentry) : bool * sx :=
-  let '(n, t, ok) := run_stream sinit es0 0 in
-  let be := bentries es0 in
-  let es := if p_early c then before_stop es0 else es0 in
+(* early-stop cases (Pipeline.Stop called with events in flight, label 116): every LTS is replayed on the WHOLE trace, the
+   part after the call included.  streamer.stop() hands every stream an unlock event (stream LTS: SPut / SGet kind 4); the
+   processor that takes one leaves its stream and stops (fix 5c4c757: before it, it went on to other streams with an event
+   still held, which Model/Proc.v rejects - a new stream while an event is held), the others finish the events queued in
+   front of the unlock event; Batcher.Stop is LStop (no Add is enabled after it) *)
+Definition lts_ok (atomic : bool) (c : pcfg) (es : list pentry) : bool * sx :=
+  let '(n, t, ok) := run_stream sinit es 0 in
+  let be := bentries es in
   let '(cm, cd) := batcher_cfgs c atomic in
   let '(n1, s1, ok1) := if 1 <=? p_outkind c then run_entries cm 0 (init cm) be 0 else (0, init cm, true) in
   let '(n2, s2, ok2) := if p_deadq c then run_entries cd 1 (init cd) be 0 else (0, init cd, true) in
   let '(n3, ok3) := run_procs (p_actions c) [] es 0 in
   let '(n4, ok4) := if p_spread c || p_deadq c then (0, true)   (* spread routing / dead queue: recorded findings, not replayed *)
                     else run_flows (p_actions c) (p_outkind c =? 0) {| fl_cur := []; fl_st := [] |} es 0 in
-  let '(n5, ok5) := run_charged cinit es0 0 in
+  let '(n5, ok5) := run_charged cinit es 0 in
   let '(n6, ok6) := if (1 <=? p_outkind c) && negb (p_spread c) && negb (p_deadq c)
                     then run_pipe cm (p_actions c) {| pp_cur := []; pp_g := ginit cm; pp_ic := [] |} es 0 else (0, true) in
   (ok && negb (scrashed t) && ok1 && ok2 && negb (crashed s1) && negb (crashed s2) && ok3 && ok4 && ok5 && ok6,
